@@ -90,6 +90,11 @@ def sites(tree):
                 and isinstance(n.args[0], ast.Constant) and isinstance(n.args[0].value, str):
             for k, (desc, _) in enumerate(regex_mutants(n.args[0].value)):
                 yield ('regex', i, k, 'regex %s' % desc)
+        if isinstance(n, ast.Constant) and isinstance(n.value, str) and id(n) not in docstrings and 0 < len(n.value) <= 40:
+            for k, (desc, _) in enumerate(string_mutants(n.value)):
+                yield ('strc', i, k, 'string %s' % desc)
+        if isinstance(n, ast.Attribute) and n.attr in ATTR_SWAP and isinstance(n.ctx, ast.Load):
+            yield ('attr', i, 0, '.%s -> .%s' % (n.attr, ATTR_SWAP[n.attr]))
         if isinstance(n, ast.Return) and n.value is not None and not isinstance(n.value, ast.Constant):
             yield ('retnone', i, 0, 'return None instead of `%s`' % ast.unparse(n.value)[:40])
         if isinstance(n, ast.Call) and len(n.args) == 2 and not n.keywords and not any(isinstance(a, ast.Starred) for a in n.args) \
@@ -99,6 +104,30 @@ def sites(tree):
             for k, kw in enumerate(n.keywords):
                 if kw.arg in ('version', 'replace', 'after', 'index', 'pos_key', 'maxsplit', 'parseAll', 'grid', 'has_value'):
                     yield ('dropkw', i, k, 'drop keyword %s=' % kw.arg)
+
+
+ATTR_SWAP = {'metadata': 'column', 'column': 'metadata', 'latitude': 'longitude', 'longitude': 'latitude', 'name': 'value',
+             'value': 'unit', 'unit': 'value', 'keys': 'values', 'items': 'keys', 'hour': 'minute', 'minute': 'second',
+             'year': 'month', 'month': 'day', 'version': 'nearest_version', '_version': 'nearest_version',
+             'append': 'extend', 'astimezone': 'replace', 'lower': 'upper', '_order': '_values', 'encoding': 'data'}
+
+
+def string_mutants(sv):
+    import re as _re
+    out = []
+    for a, b in (('%f', '%g'), ('%f', '%s'), ('%r', '%s'), ('%s', '%r'), ('%04x', '%x'), ('%04x', '%02x'), ('%d', '%s')):
+        if a in sv:
+            i = sv.index(a)
+            out.append(('%r: %s->%s' % (sv[:12], a, b), sv[:i] + b + sv[i + len(a):]))
+    if _re.match(r'^[a-z\-]:$', sv) or _re.match(r'^[a-z\-]:%', sv):
+        out.append(('%r: prefix letter changed' % sv[:12], ('q' if sv[0] != 'q' else 'w') + sv[1:]))
+    if len(sv) == 1 and sv in ',;: \n@`"' + "'":
+        out.append(('%r -> %r' % (sv, ' ' if sv != ' ' else ','), ' ' if sv != ' ' else ','))
+    if len(sv) >= 2 and sv.isalpha():
+        out.append(('%r: last letter dropped' % sv[:12], sv[:-1]))
+    if sv in ('INF', '-INF', 'NaN', 'T', 'F', 'N', 'M', 'R', 'NA'):
+        out.append(('%r lower-cased' % sv, sv.lower()))
+    return out
 
 
 def norm_func(n):
@@ -180,6 +209,10 @@ def apply(tree, site):
         e[k], e[k + 1] = e[k + 1], e[k]
     elif kind == 'regex':
         n.args[0].value = regex_mutants(n.args[0].value)[k][1]
+    elif kind == 'strc':
+        n.value = string_mutants(n.value)[k][1]
+    elif kind == 'attr':
+        n.attr = ATTR_SWAP[n.attr]
     elif kind == 'retnone':
         n.value = ast.Constant(value=None)
     elif kind == 'argswap':
